@@ -116,6 +116,7 @@ Proof.
   - destruct (nth_error (attempts s) i) as [a|]; [|inversion H; subst; destruct Hin].
     destruct (a_done a); [inversion H; subst; destruct Hin|].
     destruct (a_prep a); [inversion H; subst; destruct Hin|].
+    destruct (Nat.eqb (a_page a) (page_no s)); [|inversion H; subst; destruct Hin].
     exfalso. eapply set_result_no_sent; eauto.
   - destruct (nth_error (queue s) k) as [t|] eqn:N; [|inversion H; subst; destruct Hin].
     destruct (run_task_sent _ _ _ _ _ _ _ _ H Hin) as [E|[T P]]; auto.
@@ -212,7 +213,8 @@ Proof.
     destruct (a_prep a) eqn:Pp.
     + inversion H; subst; qnorm. cbn [queue push_task set_attempts] in Hin. apply in_app_iff in Hin.
       destruct Hin as [Hin|[<-|[]]]; auto. right. exists i, r, a. rewrite Pp. auto.
-    + destruct (set_result_queue _ _ _ _ _ _ _ H Hin) as [G|G]; [left; exact G|].
+    + destruct (Nat.eqb (a_page a) (page_no s)); [|inversion H; subst; left; exact Hin].
+      destruct (set_result_queue _ _ _ _ _ _ _ H Hin) as [G|G]; [left; exact G|].
       right. exists i, r, a. rewrite Pp. auto.
   - destruct (nth_error (queue s) k) as [t0|]; [|inversion H; subst; qnorm; left; exact Hin].
     apply run_task_queue in H. rewrite H in Hin. cbn [queue set_queue] in Hin. left. eapply in_remove_nth; eauto.
